@@ -106,3 +106,59 @@ PROPS['C08'] = dict(
     trusted_base=TB_COMMON + ['ref/refdns.cc strict parser', 'ref/refmisc.cc codecs and label-wise matcher', 'glue/unit_api.c'],
     assumptions=['alphabet index order of protocol 0x00000502 transcribed into ref/refmisc.cc (signature C08:refcodec only)'],
 )
+
+SIMSRC2 = SIMSRC + ['sim/monitors.cc']
+
+PROPS['C01'] = dict(
+    bin='c01', sources=['props/c01.cc'] + SIMSRC2, unit_objs=UNIT, images=IMGS, engine='rc',
+    quick=dict(workers=8, cases=400, budget=45, min_nontrivial=50),
+    thorough=dict(workers=16, cases=40000, budget=1200, min_nontrivial=5000),
+    rule='case = (configuration: query type incl. autodetect, forced/auto downstream codec, forced/auto fragment size 2..1300, '
+         '-M 100..255, lazy, raw mode, 1..3 real clients, tunnel domain, wildcard server domain, netmask, IPv4/IPv6 transport) + '
+         '(1..30 timed packet offers on server/client tun devices: to the peer, to another client, to nobody; 0..3800 byte '
+         'bodies of 6 content classes) + (per-datagram fault tape: drop/duplicate x1-3/delay up to 3 s, optionally one direction '
+         'only, black-outs) for 1..40 virtual s, then a clean drain. Oracle: every tun write equals a packet read earlier '
+         'from the tun device of a different instance. non-trivial iff the handshake completed, >=1 delivered packet needed '
+         '>=2 fragments and >=1 fault decision hit; distinct = hash of the choice tape',
+    engine_text='rapidcheck over choice tapes; simnet hosting real iodined + real iodine clients; ASan+UBSan',
+    bounds='<= 3 clients, <= 30 offers, packets <= 3800+24 bytes, <= 40 virtual s of faults, delays <= 3 s',
+    trusted_base=TB_SIM,
+    assumptions=AS_SIM + ['a mis-assembled packet passing zlib Adler-32 (2^-32) cannot be generated on purpose'],
+)
+PROPS['C02'] = dict(
+    bin='c02', sources=['props/c02.cc'] + SIMSRC2, unit_objs=UNIT, images=IMGS, engine='rc',
+    quick=dict(workers=8, cases=300, budget=45, min_nontrivial=40),
+    thorough=dict(workers=16, cases=30000, budget=1200, min_nontrivial=3000),
+    rule='case = configuration as in C01 (one client; forced fragment sizes limited to what the answer format carries) + '
+         'either (a) clean path, 1..40 offers with bursts and idle gaps up to 30 s: every accepted packet that fits 12 '
+         'fragments (conservative capacity) must be written at the peer exactly once, in order, within 5 virtual s; or '
+         '(b) fault phase of 1..40 virtual s (drop/dup/delay/black-out, optionally one direction), 15 s settling on a clean '
+         'path, then 3 fresh packets each way: each delivered at least once, in order, within 10 s; neither program may exit. '
+         'non-trivial iff (a) >=1 multi-fragment delivery and >=1 idle gap > 4.5 s, (b) faults hit and >=6 deliveries',
+    engine_text='rapidcheck over choice tapes; simnet (virtual clock owned by the harness turns liveness into bounded-horizon safety)',
+    bounds='<= 40 offers, <= 40 virtual s of faults; time bounds are in virtual time',
+    trusted_base=TB_SIM,
+    assumptions=AS_SIM + ['"fits in 16 fragments" judged conservatively: compressed size <= 12 x Base32 fragment capacity'],
+)
+
+PROPS['C09'] = dict(
+    bin='c09', sources=['props/c09.cc', 'sim/harness.cc', 'ref/refdns.cc', 'ref/refmisc.cc', 'ref/refproto.cc'],
+    unit_objs=[], images=['gsrv', 'gcli'], engine='rc',
+    enum_parts=14, exhaustive_claim=True,
+    quick=dict(workers=2, cases=20000, budget=40, min_nontrivial=1000, enum_arg=1),
+    thorough=dict(workers=2, cases=1000000, budget=900, min_nontrivial=100000, enum_arg=2),
+    rule='configuration = query type (7) x downstream codec letter (T,S,U,V,R; also combinations the document calls unsupported) '
+         'x query-name length (8, 53, 253 chars) x caller buffer (4096 handshake / 65536 tunnel). Sweep: payload lengths '
+         '2..4096 with contents {random, ff.., 00.., fragment-probe pattern, DOWNCODECCHECK1}: the server answer writer '
+         '(write_dns) output is fed to the client reply reader (read_dns_withq); outcome must be exact, nothing or a proper '
+         'prefix; exact lengths must form an initial segment per configuration and content; random cases add arbitrary '
+         'contents/ids. non-trivial iff the payload needs >= 2 TXT strings / >= 2 MX-SRV records / a dotted name, or lies '
+         'within 2 of the largest exact length',
+    exhaustive_text='thorough: every length 2..4096 x 5 contents x all 210 configurations; quick: lengths 2..320 + windows at '
+                    'multiples of 252 + every 5th length, 2 contents',
+    engine_text='complete length sweeps + rapidcheck on the glue pair (static write_dns of iodined.c -> static read_dns_withq of client.c)',
+    bounds='payload 2..4096 bytes',
+    trusted_base=TB_COMMON + ['glue/glue_server.c and glue/glue_client.c: textual inclusion of iodined.c / client.c; depend on the '
+                              'signatures of write_dns and read_dns_withq', 'sim capture/feed of sendto/recvfrom'],
+    assumptions=['Lmax floors (100 bytes for one hostname, 1000 otherwise) calibrated on the unchanged tree'],
+)
